@@ -2,6 +2,7 @@
 package c02
 
 import (
+	gproto "google.golang.org/protobuf/proto"
 	"bytes"
 	"context"
 	"fmt"
@@ -249,11 +250,27 @@ func exec(c Case) (vh.Outcome, error) {
 			conn.Close()
 			return out, vh.Errf("NewHandler failed for key identifiers %v: %v", c.KeyIDs, herr)
 		}
+		var earlier []*proto.SSHCertificateSigningRequest
+		var earlierSnap []*proto.SSHCertificateSigningRequest
 		if c.Prelude {
-			// an earlier request on the same handler object: what it asked for is no input of the next one
-			if prev, pe := vh.BuildParam(vh.ParamSpec{LogName: c.LogName, Policy: "NONS", ReqUser: c.LogName, ReqHost: "earlier-host", ClientIP: c.IP, TransID: "0000000001", CAAlgo: c.PrevAlgo, Via: "direct"}); pe == nil {
+			// an earlier request on the same handler object, for another login and algorithm: what it asked
+			// for is no input of the next one, and what it produced is not touched by the next one
+			if prev, pe := vh.BuildParam(vh.ParamSpec{LogName: "earlier_login", Policy: "NONS", ReqUser: "earlier_user", ReqHost: "earlier-host", ClientIP: c.IP, TransID: "0000000001", CAAlgo: c.PrevAlgo, Via: "direct"}); pe == nil {
+				// (a complete earlier run for the judged login first: authentication and generation)
+				if prevRun, pe2 := vh.BuildParam(vh.ParamSpec{LogName: c.LogName, Policy: "NONS", ReqUser: c.LogName, ReqHost: "earlier-host", ClientIP: c.IP, TransID: "0000000002", CAAlgo: c.PrevAlgo, Via: "direct"}); pe2 == nil {
+					_ = vh.Catch(func() {
+						_ = gensign.Run(context.Background(), prevRun, []gensign.Handler{h}, &vh.FakeCA{Default: vh.CABehaviour{NCerts: 1}})
+					})
+				}
 				_ = vh.Catch(func() {
-					_ = gensign.Run(context.Background(), prev, []gensign.Handler{h}, &vh.FakeCA{Default: vh.CABehaviour{NCerts: 1}})
+					if keys, gerr := h.Generate(prev); gerr == nil {
+						for _, k := range keys {
+							for _, r := range k.CSRs() {
+								earlier = append(earlier, r)
+								earlierSnap = append(earlierSnap, gproto.Clone(r).(*proto.SSHCertificateSigningRequest))
+							}
+						}
+					}
 				})
 			}
 		}
@@ -264,6 +281,11 @@ func exec(c Case) (vh.Outcome, error) {
 		conn.Close()
 		if cerr != nil {
 			return out, vh.Errf("Run crashed: %v", cerr)
+		}
+		for i := range earlier {
+			if !gproto.Equal(earlier[i], earlierSnap[i]) {
+				return out, vh.Errf("a signing request the handler had generated earlier (login earlier_login) was changed by the next request on the same handler object:\n before %v\n after  %v", earlierSnap[i], earlier[i])
+			}
 		}
 		if !registered {
 			out.Classes = append(out.Classes, "login-not-registered")
@@ -341,7 +363,7 @@ func exec(c Case) (vh.Outcome, error) {
 	return out, nil
 }
 
-const rule = "login name, client-declared user and host, transaction id with JSON metacharacters (quotes, backslash, an injection attempt, U+2028), non-ASCII, spaces, and long values of 61..5000 bytes around 64 / 128 / 256 / 4096; IPv4/IPv6 source; requested CA key algorithm 0..5, 7, 100; further client claims in the message (declared OpenSSH version incl. those older than ECDSA / Ed25519 support, touch-to-SSH, touchless-sudo with firefighter / hosts / time, signature algorithm, extension map with attribute look-alikes) that must not reach the request; the registered key in '<login>.pub' or bare '<login>' - or only under near-miss file names (other letter case, doubled '.pub'), in which case nothing may be requested -, its line with or without authorized_keys options (restrict, no-pty, from=, command=, ...); handler configuration written as JSON and loaded by config.NewGensignConfig: validity 1 s..10 y (edges 1, 3599, 3600, 2^31, 315360000) and beyond 32 bits (2^32-1, 2^32, 2^32+600, 9999999999, 2^40, 2^53: the option is a 64-bit number) or omitted (default 12 h), key_identifiers keyed by algorithm name in random case, by default/unknown, or by number, with or without the requested algorithm, their values plain or containing shell / template metacharacters (${HOME}, $USER, $(id), %s, ~, {{.}}, spaces, non-ASCII); parameters built directly or through NewReqParam; honest agent, recording CA; each Case issues the request twice, each time on a fresh handler object which, in a third of the cases, has first served another request for another CA key algorithm. Oracle on the request seen by the CA: principals = [login name]; validity = configured; extensions = the five documented names with empty values; key slot = the one configured for the requested algorithm (reference resolution of names / numbers), none => HandlerConfErr and no CA call; public key parses, is not the registered key, differs between the two requests and equals the public half of the private key the agent received; KeyId decoded by the reference decoder and by keyid.Unmarshal: single principal = login name, transaction id / ip / declared user / host verbatim, version 1, all flags false, usage 0, never-touch. Non-trivial: declared user != login name, a metacharacter or non-ASCII value, or a non-default algorithm."
+const rule = "login name, client-declared user and host, transaction id with JSON metacharacters (quotes, backslash, an injection attempt, U+2028), non-ASCII, spaces, and long values of 61..5000 bytes around 64 / 128 / 256 / 4096; IPv4/IPv6 source; requested CA key algorithm 0..5, 7, 100; further client claims in the message (declared OpenSSH version incl. those older than ECDSA / Ed25519 support, touch-to-SSH, touchless-sudo with firefighter / hosts / time, signature algorithm, extension map with attribute look-alikes) that must not reach the request; the registered key in '<login>.pub' or bare '<login>' - or only under near-miss file names (other letter case, doubled '.pub'), in which case nothing may be requested -, its line with or without authorized_keys options (restrict, no-pty, from=, command=, ...); handler configuration written as JSON and loaded by config.NewGensignConfig: validity 1 s..10 y (edges 1, 3599, 3600, 2^31, 315360000) and beyond 32 bits (2^32-1, 2^32, 2^32+600, 9999999999, 2^40, 2^53: the option is a 64-bit number) or omitted (default 12 h), key_identifiers keyed by algorithm name in random case, by default/unknown, or by number, with or without the requested algorithm, their values plain or containing shell / template metacharacters (${HOME}, $USER, $(id), %s, ~, {{.}}, spaces, non-ASCII); parameters built directly or through NewReqParam; honest agent, recording CA; each Case issues the request twice, each time on a fresh handler object which, in a third of the cases, has first generated a request for another login and CA key algorithm (that earlier request must be left untouched by the judged one). Oracle on the request seen by the CA: principals = [login name]; validity = configured; extensions = the five documented names with empty values; key slot = the one configured for the requested algorithm (reference resolution of names / numbers), none => HandlerConfErr and no CA call; public key parses, is not the registered key, differs between the two requests and equals the public half of the private key the agent received; KeyId decoded by the reference decoder and by keyid.Unmarshal: single principal = login name, transaction id / ip / declared user / host verbatim, version 1, all flags false, usage 0, never-touch. Non-trivial: declared user != login name, a metacharacter or non-ASCII value, or a non-default algorithm."
 
 func TestC02Request(t *testing.T) {
 	vh.Run(t, vh.Spec[Case]{Property: "C02", Name: "TestC02Request", Rule: rule, Gen: gen, Exec: exec})
